@@ -836,6 +836,30 @@ func genKflEval(r *Rand, tier string, emit func(sx.Sx)) {
 			}
 		}
 	}
+	// strings that strconv.ParseFloat reads as an infinity ("Infinity", "inf", "+Inf", "-INF" ...) under the ordering
+	// operators: the numeric coercion of a string is ParseFloat, and an infinity orders beyond every number
+	{
+		ident := func(p string) node { return callNode(p, sx.A("noparams"), sx.A("nosel"), p) }
+		obj := func(kv ...sx.Sx) sx.Sx { return sx.L(append([]sx.Sx{sx.A("o")}, pairs(kv)...)...) }
+		for _, inf := range []string{"Infinity", "inf", "Inf", "INF", "+Inf", "-Infinity", "-inf", "infinity", "Infinit", "in", "+", "-"} {
+			for _, op := range []string{">=", "<=", ">", "<"} {
+				for _, lit := range []string{"100", "0", "123456789"} {
+					for _, pth := range []string{"q", "qs.*"} {
+						for _, flip := range []bool{false, true} {
+							n := wrapU(node{lit, sx.L(sx.A("num"), sx.A(lit))})
+							lu, ru := wrapU(ident(pth)), n
+							if flip {
+								lu, ru = ru, lu
+							}
+							q := wrapQ(node{lu.text + " " + op + " " + ru.text, sx.L(sx.A("C"), lu.ast, sx.A(op), wrapC(ru).ast)})
+							e := wrapE(wrapL(q))
+							emit(sx.L(sx.S(e.text), e.ast, obj(sx.S("q"), sStr(inf), sx.S("qs"), sArr(sStr("10"), sStr(inf)))))
+						}
+					}
+				}
+			}
+		}
+	}
 	// negative zero: the literal -0 and a -0.0 of the record are numerically zero under every operator
 	{
 		ident := func(p string) node { return callNode(p, sx.A("noparams"), sx.A("nosel"), p) }
